@@ -829,6 +829,16 @@ func (c *VC) verify() {
 			}
 		}
 	}
+	if sd := fi.Dir; sd != nil || K != nil {
+		if K != nil {
+			sd = K.Dir
+		}
+		for _, cs := range sd.Sites {
+			if c.siteHits[fmt.Sprintf("%d %s: %s", cs.Ord, cs.Callee, cs.Expr)] == 0 {
+				c.prog.errors = append(c.prog.errors, fmt.Sprintf("CONTRACT-STALE %s site %q matches no statement", fi.Name, cs.Callee))
+			}
+		}
+	}
 	split := (K != nil && K.Dir.Split) || fi.Dir.Split
 	var groups [][]*retState
 	if split {
